@@ -74,7 +74,7 @@ type cfg struct {
 func config(tier string) cfg {
 	if tier == engine.Thorough {
 		return cfg{itemL: 5, letters: "abc", sletters: "bBc", items: "b", edgeL: 4, assocL: 5,
-			twoL1: 3, twoL2: 4, twoAB: "ab", twoSAB: "aAb", subL: 6, sortL: 8, sortSL: 6, sortAB: "abc", sortSAB: "aAbB",
+			twoL1: 3, twoL2: 4, twoAB: "ab", twoSAB: "aA", subL: 6, sortL: 8, sortSL: 6, sortAB: "abc", sortSAB: "aAbB",
 			mergeL: 4, setL: 4, quantL1: 6, quantL2: 4, mapL: 4, reduceL: 5, concatN: 3, concatL: 2,
 			twoTests: []string{"", "equal", "lam"}, longLo: 13, longHi: 15}
 	}
@@ -88,7 +88,8 @@ func bound(tier string) string {
 	c := config(tier)
 	extra := ""
 	if tier == engine.Thorough {
-		extra = "; additionally the item/-if/substitute families over the 4-letter alphabets abcd / abBc with items a b c up to length 4"
+		extra = "; additionally the item/-if/substitute families over the 4-letter alphabets abcd / abBc with items a b c up to length 4, " +
+			"and search/mismatch/replace over the string alphabet aAb at lengths 0..2 x 0..3"
 	}
 	twoTests := "absent, an order lambda"
 	if len(c.twoTests) == 3 {
@@ -373,18 +374,15 @@ func enumerateFn(tier, only string, emit func(string)) {
 
 	// ---- search / mismatch / replace
 	typePairs := []string{"LL", "VV", "SS", "LV", "VL", "SL", "LS"}
-	for _, fn := range []string{"search", "mismatch", "replace"} {
-		if !want(fn) {
-			continue
-		}
+	twoGrid := func(fn string, twoAB, twoSAB string, twoL1, twoL2 int) {
 		for _, tp := range typePairs {
-			ab := cf.twoAB
+			ab := twoAB
 			if strings.ContainsRune(tp, 'S') {
-				ab = cf.twoSAB
+				ab = twoSAB
 			}
-			l1, l2 := cf.twoL1, cf.twoL2
+			l1, l2 := twoL1, twoL2
 			if fn == "replace" {
-				l1, l2 = cf.twoL2, cf.twoL1 // the target is the longer one
+				l1, l2 = twoL2, twoL1 // the target is the longer one
 			}
 			if tp == "SL" || tp == "LS" { // mixed string / character list: a reduced grid
 				l1, l2 = min(l1, 2), min(l2, 2)
@@ -418,6 +416,16 @@ func enumerateFn(tier, only string, emit func(string)) {
 					}
 				}
 			}
+		}
+	}
+	for _, fn := range []string{"search", "mismatch", "replace"} {
+		if !want(fn) {
+			continue
+		}
+		twoGrid(fn, cf.twoAB, cf.twoSAB, cf.twoL1, cf.twoL2)
+		if tier == engine.Thorough {
+			q := config(engine.Quick)
+			twoGrid(fn, q.twoAB, q.twoSAB, q.twoL1, q.twoL2) // the 3-letter string alphabet at the quick lengths
 		}
 	}
 
